@@ -301,6 +301,50 @@ class Ring(Component):   # a large cyclic group with a branch in every block; ev
       else:        s.x[11] @= s.x[10] >> 1
     @update
     def up_o(): s.out @= s.x[11]
+class RingMixed(Component):   # a large cyclic group in which blocks WITH a branch alternate with branch-free blocks that do real work
+                               # (every hop shifts right: converges under every block order)
+  def construct(s):
+    n = 12
+    s.in_ = InPort(4); s.en = InPort(n); s.out = OutPort(4)
+    s.x = [Wire(4) for _ in range(n)]
+    @update
+    def up_mix0():
+      if s.en[0]: s.x[0] @= (s.x[11] >> 1) | s.in_
+      else:        s.x[0] @= s.x[11] >> 1
+    @update
+    def up_mix1(): s.x[1] @= (s.x[0] >> 1) | (s.in_ & 5)
+    @update
+    def up_mix2():
+      if s.en[2]: s.x[2] @= (s.x[1] >> 1) | s.in_
+      else:        s.x[2] @= s.x[1] >> 1
+    @update
+    def up_mix3(): s.x[3] @= (s.x[2] >> 1) | (s.in_ & 15)
+    @update
+    def up_mix4():
+      if s.en[4]: s.x[4] @= (s.x[3] >> 1) | s.in_
+      else:        s.x[4] @= s.x[3] >> 1
+    @update
+    def up_mix5(): s.x[5] @= (s.x[4] >> 1) | (s.in_ & 9)
+    @update
+    def up_mix6():
+      if s.en[6]: s.x[6] @= (s.x[5] >> 1) | s.in_
+      else:        s.x[6] @= s.x[5] >> 1
+    @update
+    def up_mix7(): s.x[7] @= (s.x[6] >> 1) | (s.in_ & 3)
+    @update
+    def up_mix8():
+      if s.en[8]: s.x[8] @= (s.x[7] >> 1) | s.in_
+      else:        s.x[8] @= s.x[7] >> 1
+    @update
+    def up_mix9(): s.x[9] @= (s.x[8] >> 1) | (s.in_ & 13)
+    @update
+    def up_mix10():
+      if s.en[10]: s.x[10] @= (s.x[9] >> 1) | s.in_
+      else:        s.x[10] @= s.x[9] >> 1
+    @update
+    def up_mix11(): s.x[11] @= (s.x[10] >> 1) | (s.in_ & 7)
+    @update
+    def up_o(): s.out @= s.x[11] ^ s.x[4]
 class L14(Component):   # TWO separate cyclic groups (false loops) in one design, the second fed by the first
   def construct(s):
     s.in_ = InPort(8); s.out = OutPort(8); s.a = Wire(8); s.b = Wire(8); s.c = Wire(8); s.d = Wire(8); s.e = Wire(8); s.f = Wire(8)
@@ -372,7 +416,7 @@ class Once(Component):   # update_once inside a cycle: must be rejected at sched
     @update_once
     def upB(): s.b @= s.a & 6
 '''
-NAMES = ['L0', 'L1', 'L2', 'L3', 'L4', 'L5', 'L6', 'L7', 'L8', 'L9', 'L10', 'L11', 'L12', 'L13', 'L14', 'L15', 'L16', 'Ring', 'RingComp', 'ForkJoin']
+NAMES = ['L0', 'L1', 'L2', 'L3', 'L4', 'L5', 'L6', 'L7', 'L8', 'L9', 'L10', 'L11', 'L12', 'L13', 'L14', 'L15', 'L16', 'Ring', 'RingComp', 'ForkJoin', 'RingMixed']
 TWINS = {'L6': ('L6twin', ['s.w']), 'L7': ('L7twin', ['s.z']), 'L10': ('L10twin', ['s.q', 's.z']), 'L12': ('L12twin', ['s.e', 's.y.a', 's.y.b']),
          'L14': ('L14twin', ['s.out', 's.b', 's.e']), 'L15': ('L15twin', ['s.out', 's.o2']), 'L16': ('L16twin', ['s.o2'])}
 _mod = None
